@@ -95,6 +95,42 @@ def rule_index_content(rep, fb, floor=8):
                                 "%s::%s pairs its own index_ (old numbering) with content that was carried/projected into a new numbering (%s)" % (f["cls"], f["name"], unparse(cexpr(bad[0][1]))[:50] if bad else ""),
                                 detail="index_ with content still numbered like content_")
         cs.each_block_cont(f["body"], onblock)
+    # the converse pairing: an index that numbers only the valid items (the outindex of nextcarry_outindex, the running count written by
+    # IndexedOptionArray_rpad_and_clip_mask_axis1) goes with content carried/projected down to those items, never with content_ itself
+    for f in fb.lib_funcs():
+        if f["cls"] not in ("IndexedArrayOf", "ByteMaskedArray", "BitMaskedArray", "UnmaskedArray"):
+            continue
+        dense = set()
+        for c in find_all(f["body"], lambda n: n[0] == "call" and "rpad_and_clip_mask_axis1" in repr(n[1])):
+            for a in c[2][:2]:
+                for m in find_all((a,), lambda n: n[0] == "mcall" and n[1] == "data" and n[3][0] == "var"):
+                    dense.add(m[3][1])
+        pairs = {d[1] for d in find_all(f["body"], lambda n: n[0] == "decl" and n[3] is not None and find_all((n[3],), lambda q: q[0] == "mcall" and q[1] == "nextcarry_outindex"))}
+        for d in find_all(f["body"], lambda n: n[0] == "decl" and n[3] is not None and n[3][0] == "member" and n[3][2] == "second" and n[3][1][0] == "var" and n[3][1][1] in pairs):
+            dense.add(d[1])
+        if not dense:
+            continue
+        cnt2 = {}
+
+        def onblock3(stmts, cont, f=f, dense=dense, cnt2=cnt2):
+            for i, s in enumerate(stmts):
+                for e in cs.head_exprs(s):
+                    for n in find_all((e,), lambda n: n[0] in ("make", "ctor") and len(n) >= 3 and len(n[2]) >= 4 and re.search(r"Indexed(Option)?Array", str(n[1]))):
+                        ix = [a for a in n[2] if a[0] == "var" and a[1] in dense]
+                        if not ix:
+                            continue
+                        defs = cs.scoped_defs(cs._PseudoSite(f, stmts, i, cont))
+                        kinds = [(_compacted(a, defs), a) for a in n[2] if a not in ix]
+                        kinds = [k for k in kinds if k[0]]
+                        if not kinds:
+                            continue
+                        cnt2[f["name"]] = cnt2.get(f["name"], 0) + 1
+                        key = "%s::%s/%d#dense%d" % (f["cls"], f["name"], len(f["params"]), cnt2[f["name"]])
+                        bad = [k for k in kinds if k[0] in ("FULL", "MIXED")]
+                        r.check(not bad, key, "%s:%d" % (f["file"], n[-1] if isinstance(n[-1], int) else f["line"]),
+                                "%s::%s pairs the index `%s`, which numbers only the valid items, with content that is still numbered like content_ (%s): rows come from other positions unless the node happens to be dense and in order" % (
+                                    f["cls"], f["name"], ix[0][1], unparse(cexpr(bad[0][1]))[:50] if bad else ""), detail="dense index with carried/projected content")
+        cs.each_block_cont(f["body"], onblock3)
     # receivers of the recursive *_next calls: carried on one path => carried on all
     for f in fb.lib_funcs():
         if f["cls"] not in ("IndexedArrayOf", "ByteMaskedArray", "BitMaskedArray", "UnmaskedArray") or f["name"] not in ("reduce_next", "sort_next", "argsort_next"):
